@@ -1,1 +1,3 @@
 import EsbuildModel.Props.C07
+import EsbuildModel.Props.C18
+import EsbuildModel.Props.C19
